@@ -475,6 +475,12 @@ static OfCase ofParse(const std::string& t) {
 template <typename F>
 static Outcome ofRunT(const OfCase& c, const char* tname) {
   g_of = OfRecord();
+  // perturb the heap so that consecutive cases see different malloc residues (an under-aligned
+  // allocation is only visible when the returned address happens not to be a multiple of alignof)
+  static std::vector<void*> perturb;
+  perturb.push_back(malloc(24 + 16 * (size_t)((c.type * 7 + c.chain * 3 + c.ctorMode + c.assign * 5 + c.action) % 23)));
+  if (perturb.size() % 3 == 0) // also in the size range of the callable itself (a freed block would otherwise be handed back at the same address every time)
+    perturb.push_back(malloc(sizeof(F) + 16 * (perturb.size() % 9)));
   std::string ctx = std::string(" [callable ") + tname + " sizeof=" + std::to_string(sizeof(F)) + " alignof=" + std::to_string(alignof(F)) + " case " + ofText(c) + "]";
   {
     trk::Box<dispenso::OnceFunction> holder[6];
